@@ -76,7 +76,8 @@ def abs (a : CF) : Float := Float.sqrt (a.re * a.re + a.im * a.im)
 def log (a : CF) : CF := ⟨Float.log (abs a), Float.atan2 a.im a.re⟩
 def exp (a : CF) : CF := let m := Float.exp a.re; ⟨m * Float.cos a.im, m * Float.sin a.im⟩
 def pow (a b : CF) : CF :=
-  if a.re == 0 && a.im == 0 then (if b.re == 0 && b.im == 0 then ⟨1, 0⟩ else ⟨0, 0⟩)
+  if a.re == 0 && a.im == 0 then
+    (if b.re == 0 && b.im == 0 then ⟨1, 0⟩ else if b.re < 0 then ⟨1 / 0, 0 / 0⟩ else ⟨0, 0⟩)
   else exp (mul b (log a))
 def sqrt (a : CF) : CF := pow a ⟨0.5, 0⟩
 def sinh (a : CF) : CF := ⟨Float.sinh a.re * Float.cos a.im, Float.cosh a.re * Float.sin a.im⟩
